@@ -314,6 +314,14 @@ class Table:
         out.append("]%list.")
         return "\n".join(out) + "\n"
 
+    def gen_vD(self):
+        lines = ["(* GENERATED by tools/props/qtylib.py: canonical display name and short-prefix flag of every unit, in table order. Do not edit. *)",
+                 "From Coq Require Import List String.", "Import ListNotations.", "Open Scope string_scope.", "",
+                 "Definition prelude_display : list (string * bool) := ["]
+        lines.append(";\n".join("  (%s, %s)" % (common.coq_string(r.canon), "true" if r.short else "false") for r in self.rows))
+        lines.append("]%list.")
+        return "\n".join(lines) + "\n"
+
     def gen_v(self):
         out = ["(* GENERATED by tools/props/qtylib.py from the unit table of the running implementation",
                "   (harness `qty`, line T: numbat::verif::qty hooks after `use prelude`). Do not edit. *)",
@@ -367,6 +375,7 @@ def session():
     tbl = Table(out)
     write_if_changed(os.path.join(GEN, "PreludeUnits.v"), tbl.gen_v())
     write_if_changed(os.path.join(GEN, "PreludeUnitsF.v"), tbl.gen_vF())
+    write_if_changed(os.path.join(GEN, "PreludeDisplay.v"), tbl.gen_vD())
     _session.update(binary=binary, table=tbl)
     return binary, tbl
 
@@ -990,7 +999,7 @@ def obs_of_src(line):
     return Obs(parts[0])
 
 
-IMPORTS = ["Qty.Prelude", "Qty.PreludeF"]
+IMPORTS = ["Qty.Prelude", "Qty.PreludeF", "Qty.DisplayExec"]
 
 
 def known_match(pid, pred):
@@ -1070,3 +1079,21 @@ def replica_convert(tbl, v, ua, ub):
     factor = f_to_base_factor(tbl, ub)
     qb = (v / 1.0) * f_to_base_factor(tbl, ua)
     return qb / factor
+
+
+# ------------------------------------------------------------------ displayed text
+import re as _re
+_NUM = _re.compile(r"^-?(?:inf|NaN|[0-9][0-9_]*(?:\.[0-9]+)?(?:e[+-]?[0-9]+)?)")
+
+
+def unit_part(text):
+    m = _NUM.match(text)
+    return (text[m.end():] if m else text).lstrip(" ")
+
+
+def display_shape_of(text):
+    """what Qty/Display.v display_shape models of the displayed text: the unit part, preceded by the
+    `×` marker for the `coefficient × target` form"""
+    if " × " in text:
+        return "× " + unit_part(text.split(" × ", 1)[1])
+    return unit_part(text)
